@@ -39,9 +39,9 @@ type C06Case struct {
 	Limit    int    `json:"limit,omitempty"`
 	// Offset > 0: the trailing LIMIT carries an OFFSET (spelling OffsetComma: LIMIT m, n); also drawn for
 	// SELECT DISTINCT without ORDER BY, where the window is cut out of the first-occurrence sequence
-	Offset      int  `json:"offset,omitempty"`
-	OffsetComma bool `json:"offset_comma,omitempty"`
-	SQL      string `json:"sql"`
+	Offset      int    `json:"offset,omitempty"`
+	OffsetComma bool   `json:"offset_comma,omitempty"`
+	SQL         string `json:"sql"`
 	// distinct-agg mode
 	AggCol string `json:"agg_col,omitempty"`
 	AggSum bool   `json:"agg_sum,omitempty"`
